@@ -623,6 +623,10 @@ type harness struct {
 	current string
 	nsample int
 	ncanon  int
+	// round 3 (directed.go)
+	cpool       []poolEntry
+	nsweep      int
+	nshapeModel int
 }
 
 func (h *harness) noteCurrent(doc []byte) {
@@ -699,6 +703,12 @@ func (h *harness) addDoc(doc []byte, gen string) implResult {
 	// Go-side property oracles on the implementation alone
 	if r.UCls == 2 || r.HCls == 2 || r.PCls == 2 || r.SCls == 2 {
 		h.fail("hashing or signing a JSON document panicked", "", doc, gen, r)
+	}
+	if r.UCls == 0 {
+		h.stateOracle(doc, gen, r.HCls, r.HDig, true)
+		if len(h.seen)%9 == 0 {
+			h.pool(doc, r.HCls, r.HDig)
+		}
 	}
 	if r.SCls == 0 && !r.SigOK {
 		h.fail("SignTypedDataV4 returned a signature that does not recover to the signer over the returned hash", "", doc, gen, r)
